@@ -560,14 +560,21 @@ func c07Piggyback(w *World, r *Report) {
 
 		// receive side: UpdateAcked(msg.LastAckedSeqNo) and Append(msg.Packet) on the same endpoint's queues
 		var updCall, appCall *ssa.Call
-		for _, c := range callsIn(fn) {
-			if call, ok := c.(*ssa.Call); ok {
-				if sCallee(c) == upd {
-					updCall = call
+		var recvFn *ssa.Function // the function (fn or a helper method it calls) that consumes the answer
+		for _, g := range staticCone(fn, 2) {
+			var u, a *ssa.Call
+			for _, c := range callsIn(g) {
+				if call, ok := c.(*ssa.Call); ok {
+					if sCallee(c) == upd {
+						u = call
+					}
+					if sCallee(c) == app {
+						a = call
+					}
 				}
-				if sCallee(c) == app {
-					appCall = call
-				}
+			}
+			if u != nil && a != nil && updCall == nil {
+				updCall, appCall, recvFn = u, a, g
 			}
 		}
 		bad = ""
@@ -595,9 +602,28 @@ func c07Piggyback(w *World, r *Report) {
 			o1, o2 := owner(updCall.Call.Args[0]), owner(appCall.Call.Args[0])
 			if o1 == nil || o2 == nil || o1 != o2 {
 				bad = "out.UpdateAcked and in.Append are applied to queues of different endpoint objects"
-			} else if inOwner != nil {
+			} else if inOwner != nil && recvFn == fn {
 				if fa, ok := inOwner.(*ssa.FieldAddr); ok && fa.X != o2 {
 					bad = "the acknowledged in-queue and the queue fed by Append belong to different endpoint objects"
+				}
+			} else if recvFn != fn {
+				// consumed in a helper: the helper works on its own receiver, and fn calls it on the endpoint whose in-queue it acknowledged
+				if len(recvFn.Params) == 0 || o2 != ssa.Value(recvFn.Params[0]) {
+					bad = "the helper that consumes the answer applies it to queues that are not its receiver's"
+				}
+				okCall := false
+				for _, c := range callsIn(fn) {
+					if c.Common().StaticCallee() == recvFn && len(c.Common().Args) > 0 {
+						if fa, ok := inOwner.(*ssa.FieldAddr); ok && fa.X == c.Common().Args[0] {
+							okCall = true
+						}
+						if inOwner == nil {
+							okCall = true
+						}
+					}
+				}
+				if !okCall && bad == "" {
+					bad = "the helper that consumes the answer is not called on the endpoint whose in-queue was acknowledged"
 				}
 			}
 		}
@@ -860,91 +886,171 @@ func c07Bookkeeping(w *World, r *Report) {
 		c07Parked(w, r, "R07.11", fn, inQ)
 	}
 
-	// R07.8 addChunk: SeqNo of the new packet is NextSeqNo, then NextSeqNo += 1, under the mutex
-	if fn := w.SSAFunc(methodOf(outQ, "addChunk")); fn == nil {
-		r.Undecided("R07.8", "method:(*streams/dns/util.OutQueue).addChunk", "-", "anchor unresolved")
-	} else {
+	// R07.8 numbering: SeqNo of a new packet is NextSeqNo, then NextSeqNo += 1, both under the mutex — in
+	// whichever method of OutQueue does it
+	{
 		bad := ""
 		assigned, inc := false, false
-		region, _ := lockRegion(fn, func(v ssa.Value) bool { _, ok := v.(*ssa.FieldAddr); return ok })
-		allInstrs(fn, func(in ssa.Instruction) {
-			st, ok := in.(*ssa.Store)
-			if !ok {
-				return
+		for fn := range allModuleFuncs(w, w.SSA()) {
+			if recvNamed(fnObj(fn)) != outQ {
+				continue
 			}
-			fa, ok := st.Addr.(*ssa.FieldAddr)
-			if !ok {
-				return
-			}
-			switch fieldVarOf(fa) {
-			case seqF:
-				if isLoadOfField(st.Val, outNext) {
-					assigned = true
-				} else {
-					bad = fmt.Sprintf("%s: a new packet is not numbered with the queue's next sequence number", w.Pos(st.Pos()))
+			region, _ := lockRegion(fn, func(v ssa.Value) bool { _, ok := v.(*ssa.FieldAddr); return ok })
+			allInstrs(fn, func(in ssa.Instruction) {
+				st, ok := in.(*ssa.Store)
+				if !ok {
+					return
 				}
-				if !region[in] {
-					bad = fmt.Sprintf("%s: packet numbering happens outside the queue mutex", w.Pos(st.Pos()))
+				fa, ok := st.Addr.(*ssa.FieldAddr)
+				if !ok {
+					return
 				}
-				if ld, ok := st.Val.(ssa.Instruction); ok && !region[ld] {
-					bad = fmt.Sprintf("%s: the next sequence number is read outside the queue mutex: two concurrent writers can be given the same number", w.Pos(ld.Pos()))
+				switch fieldVarOf(fa) {
+				case seqF:
+					if isLoadOfField(st.Val, outNext) {
+						assigned = true
+					} else {
+						bad = fmt.Sprintf("%s: a new packet is not numbered with the queue's next sequence number", w.Pos(st.Pos()))
+					}
+					if !region[in] {
+						bad = fmt.Sprintf("%s: packet numbering happens outside the queue mutex", w.Pos(st.Pos()))
+					}
+					if ld, ok := st.Val.(ssa.Instruction); ok && !region[ld] {
+						bad = fmt.Sprintf("%s: the next sequence number is read outside the queue mutex: two concurrent writers can be given the same number", w.Pos(ld.Pos()))
+					}
+				case outNext:
+					bo, ok := st.Val.(*ssa.BinOp)
+					c, isC := int64(0), false
+					if ok {
+						c, isC = constIntVal(bo.Y)
+					}
+					if ok && bo.Op == token.ADD && isC && c == 1 && isLoadOfField(bo.X, outNext) {
+						inc = true
+					} else {
+						bad = fmt.Sprintf("%s: the next sequence number is not advanced by exactly one", w.Pos(st.Pos()))
+					}
+					if !region[in] {
+						bad = fmt.Sprintf("%s: the next sequence number is advanced outside the queue mutex", w.Pos(st.Pos()))
+					}
 				}
-			case outNext:
-				bo, ok := st.Val.(*ssa.BinOp)
-				c, isC := int64(0), false
-				if ok {
-					c, isC = constIntVal(bo.Y)
-				}
-				if ok && bo.Op == token.ADD && isC && c == 1 && isLoadOfField(bo.X, outNext) {
-					inc = true
-				} else {
-					bad = fmt.Sprintf("%s: the next sequence number is not advanced by exactly one", w.Pos(st.Pos()))
-				}
-				if !region[in] {
-					bad = fmt.Sprintf("%s: the next sequence number is advanced outside the queue mutex", w.Pos(st.Pos()))
-				}
-			}
-		})
-		r.Check(bad == "" && assigned && inc, "R07.8", "method:(*streams/dns/util.OutQueue).addChunk", w.Pos(fn.Pos()), "new packet gets NextSeqNo, NextSeqNo advances by one, both under the mutex", bad+mapStr(!assigned || !inc, "numbering or increment not found"))
+			})
+		}
+		r.Check(bad == "" && assigned && inc, "R07.8", "type:streams/dns/util.OutQueue|numbering", "-", "new packet gets NextSeqNo, NextSeqNo advances by one, both under the mutex", bad+mapStr(!assigned || !inc, "numbering or increment not found"))
 	}
 
-	// R07.9 cleanAckedChunks removes a packet only when its number equals an acknowledged one; NextChunk returns the oldest
-	if fn := w.SSAFunc(methodOf(outQ, "cleanAckedChunks")); fn != nil {
+	// R07.9 a packet is removed from the out-queue only when its number equals an acknowledged one (in
+	// cleanAckedChunks or a helper it hands the acknowledged number to); NextChunk returns the oldest
+	{
 		outF := fieldOf(outQ, "out")
 		ackedF := fieldOf(outQ, "acked")
 		bad := ""
 		n := 0
-		allInstrs(fn, func(in ssa.Instruction) {
-			st, ok := in.(*ssa.Store)
-			if !ok {
-				return
-			}
-			fa, ok := st.Addr.(*ssa.FieldAddr)
-			if !ok || fieldVarOf(fa) != outF {
-				return
-			}
-			n++
-			guard := func(v ssa.Value) bool {
-				b, ok := v.(*ssa.BinOp)
-				if !ok || b.Op != token.EQL {
-					return false
+		isAckElem := func(x ssa.Value) bool {
+			for _, root := range provenance(x, provOpts{}) {
+				u, ok := root.(*ssa.UnOp)
+				if !ok {
+					continue
 				}
-				isSeq := func(x ssa.Value) bool { fa := asFieldAddr(x); return fa != nil && fieldVarOf(fa) == seqF }
-				isAck := func(x ssa.Value) bool {
-					u, ok := x.(*ssa.UnOp)
+				if ia, ok := u.X.(*ssa.IndexAddr); ok {
+					for _, r2 := range provenance(ia.X, provOpts{}) {
+						if isLoadOfField(r2, ackedF) {
+							return true
+						}
+					}
+				}
+			}
+			return false
+		}
+		for fn := range allModuleFuncs(w, w.SSA()) {
+			if recvNamed(fnObj(fn)) != outQ {
+				continue
+			}
+			allInstrs(fn, func(in ssa.Instruction) {
+				st, ok := in.(*ssa.Store)
+				if !ok {
+					return
+				}
+				fa, ok := st.Addr.(*ssa.FieldAddr)
+				if !ok || fieldVarOf(fa) != outF {
+					return
+				}
+				// a removal: append(out[a:b], out[c:]...) — both operands are re-slices of the queue
+				call, ok := st.Val.(*ssa.Call)
+				if !ok {
+					return
+				}
+				bi, ok := call.Call.Value.(*ssa.Builtin)
+				if !ok || bi.Name() != "append" || len(call.Call.Args) != 2 {
+					return
+				}
+				fromOut := func(v ssa.Value) bool {
+					sl, ok := v.(*ssa.Slice)
 					if !ok {
 						return false
 					}
-					ia, ok := u.X.(*ssa.IndexAddr)
-					return ok && isLoadOfField(ia.X, ackedF)
+					for _, root := range provenance(sl.X, provOpts{}) {
+						if isLoadOfField(root, outF) {
+							return true
+						}
+					}
+					return false
 				}
-				return (isSeq(b.X) && isAck(b.Y)) || (isSeq(b.Y) && isAck(b.X))
-			}
-			if !dominatedByCond(fn, st, guard, true) {
-				bad = fmt.Sprintf("%s: a packet is removed from the out-queue without its number being equal to an acknowledged number", w.Pos(st.Pos()))
-			}
-		})
-		r.Check(bad == "" && n > 0, "R07.9", "method:(*streams/dns/util.OutQueue).cleanAckedChunks|retire", w.Pos(fn.Pos()), fmt.Sprintf("%d removal(s), each under packet.SeqNo == acked[i]", n), bad)
+				if !fromOut(call.Call.Args[0]) || !fromOut(call.Call.Args[1]) {
+					return
+				}
+				n++
+				okg := false
+				for _, b := range fn.Blocks {
+					if len(b.Instrs) == 0 {
+						continue
+					}
+					ifi, ok := b.Instrs[len(b.Instrs)-1].(*ssa.If)
+					if !ok {
+						continue
+					}
+					bo, ok := ifi.Cond.(*ssa.BinOp)
+					if !ok || bo.Op != token.EQL || !edgeDominates(b, 0, st.Block()) {
+						continue
+					}
+					isSeq := func(x ssa.Value) bool { fa := asFieldAddr(x); return fa != nil && fieldVarOf(fa) == seqF }
+					for _, pair := range [][2]ssa.Value{{bo.X, bo.Y}, {bo.Y, bo.X}} {
+						if !isSeq(pair[0]) {
+							continue
+						}
+						if isAckElem(pair[1]) {
+							okg = true
+						}
+						if prm, ok := pair[1].(*ssa.Parameter); ok {
+							// every caller passes an acknowledged number
+							idx := -1
+							for k, q := range fn.Params {
+								if q == prm {
+									idx = k
+								}
+							}
+							ncall, all := 0, true
+							for caller := range allModuleFuncs(w, w.SSA()) {
+								for _, c := range callsIn(caller) {
+									if c.Common().StaticCallee() == fn && idx >= 0 && idx < len(c.Common().Args) {
+										ncall++
+										if !isAckElem(c.Common().Args[idx]) {
+											all = false
+										}
+									}
+								}
+							}
+							if ncall > 0 && all {
+								okg = true
+							}
+						}
+					}
+				}
+				if !okg {
+					bad = fmt.Sprintf("%s: a packet is removed from the out-queue without its number being equal to an acknowledged number", w.Pos(st.Pos()))
+				}
+			})
+		}
+		r.Check(bad == "" && n > 0, "R07.9", "type:streams/dns/util.OutQueue|retire", "-", fmt.Sprintf("%d removal(s), each under packet.SeqNo == an acknowledged number", n), bad+mapStr(n == 0, "no removal from the out-queue found: acknowledged packets are never retired"))
 	}
 	if fn := w.SSAFunc(methodOf(outQ, "NextChunk")); fn != nil {
 		outF := fieldOf(outQ, "out")
